@@ -36,6 +36,19 @@ def child_digests(inputs, seed):
     return json.loads(txt[i:]) if i >= 0 else None
 
 
+def two_owners(fgs):
+    """mirror of MapDefs.two_owners on the encoded coarse graphs [[key, graph]…]"""
+    first = {}
+    for k, g in fgs:
+        for n, _, _ in g:
+            first.setdefault(n, k)
+    for k, g in fgs:
+        owners = {first[n] for n, _, _ in g if first[n] != k}
+        if len(owners) > 1:
+            return True
+    return False
+
+
 class C12(RS.StepProp):
     id = 'C12'
     level = 'proof'
@@ -56,7 +69,7 @@ class C12(RS.StepProp):
     fail_text = {1: 'node keys of the fine graph are not 0..n-1',
                  2: 'node keys are not ascending in coarse membership (fragid)',
                  3: 'the atoms of a coarse node do not form one contiguous block in base-graph order',
-                 4: 'an atom name is not element + running index within its coarse node',
+                 4: 'an atom name is not element + decimal index, or not element + position in a coarse node without shared atom',
                  5: 'atom names are not unique within a coarse node',
                  10: 'repeated constructor/resolve calls in one process gave different graphs for the same input',
                  11: 'a fragment library passed in was modified',
@@ -74,6 +87,8 @@ class C12(RS.StepProp):
         self.begin_round()
         out = []
         for s, laa in [('{[#A][#B]}.{#A=CC[!],#B=[!]CC}', True),
+                       ('{[#A]1.[#B][#K]1}.{#A=CC[!],#B=CC[!],#K=[!]CC[!]}', True),
+                       ('{[#A][#B][#C]}.{#A=CC[!],#B=[!]C[!],#C=[!]CO}', True),
                        ('{[#A][#B]}.{#A=[$]CC[$],#B=[$]OC}', True),
                        ('{[#A]|3}.{#A=[$]CC[$]}', True),
                        ('{[#B1][#B2][#B1]}.{#B1=[#PEO]|4,#B2=[#PE]|2}.{#PEO=[>]COC[<],#PE=[>]CC[<]}', True),
@@ -295,6 +310,7 @@ class C12(RS.StepProp):
         tab = self.new_tab()
         impl = RS.rec_summary(rec)
         impl['shared'] = bool(rec.get('mol')) and any(len(RS.dec_val(dict(a).get('fragid')) or []) > 1 for _, a, _ in rec['mol'])
+        impl['two_owners'] = bool(rec.get('fgs')) and two_owners(rec['fgs'])
         impl['names'] = [[n, dict(a).get('atomname')] for n, a, _ in (rec.get('mol') or [])][:40] if rec['aa'] else None
         impl['_k'] = self.put_term([tab], 'C12Check.CStep ' + RS.lit_stepcase(rec, tab))
         return impl
@@ -306,8 +322,10 @@ class C12(RS.StepProp):
         return None
 
     def known_class(self, case, impl, code):
-        if case['kind'] == 'step' and impl.get('shared') and code == 5:
-            return 'shared_atom_names'
+        # shared_atom_names was repaired in /repo 8dbd471; what is left: two atoms first named in two different
+        # earlier coarse nodes meet in a later one (mirror of MapDefs.two_owners)
+        if case['kind'] == 'step' and impl.get('two_owners') and code == 5:
+            return 'shared_from_two_owners'
         return None
 
     def nontrivial(self, case, impl):
